@@ -82,6 +82,66 @@ theorem insert_batch_flat (refs : Refs) (d : Decl) (ty : Ty) (hd : DeclOK d ty) 
         Res.ok (sbs.flatMap (specBlockRows refs d ty mode base), s') ∧ Abi.WF s' ty.nsel :=
   insert_exact refs d ty hd mode base (sbs.map (·.ab)) s hs hok _ (specInsert_flat refs d ty mode base sbs hfix)
 
+/-! ### `Task.insert`: how the loaded batch reaches `Integration.Insert`
+
+    `for i := 0; i < len(blocks); i += t.batchSize { n := min(i + batchSize, len); dests[i].Insert(blocks[i:n]) }` -/
+
+/-- the `(i, n)` chunks of `Task.insert` for `len` loaded blocks (fuel = `len`: `i` grows by at least one) -/
+def insertChunks (len batch : Nat) : Nat → Nat → List (Nat × Nat)
+  | 0, _ => []
+  | fuel + 1, i => if i < len then (i, min (i + batch) len) :: insertChunks len batch fuel (i + max batch 1) else []
+
+/-- the chunks are consecutive, start at 0 and end at `len`: every loaded block is handed over exactly once, in order -/
+theorem insertChunks_cover (len batch : Nat) (hb : 1 ≤ batch) : ∀ (fuel i : Nat), len - i ≤ fuel → i ≤ len →
+    (insertChunks len batch fuel i).flatMap (fun c => (List.range (c.2 - c.1)).map (· + c.1)) =
+      (List.range (len - i)).map (· + i)
+  | 0, i, hf, hi => by
+    have : len - i = 0 := by omega
+    simp [insertChunks, this]
+  | fuel + 1, i, hf, hi => by
+    unfold insertChunks
+    by_cases hlt : i < len
+    · simp only [hlt, if_true, List.flatMap_cons]
+      have hm : max batch 1 = batch := by omega
+      rw [hm]
+      by_cases hlast : i + batch ≥ len
+      · have hmin : min (i + batch) len = len := by omega
+        rw [hmin]
+        have hrest : insertChunks len batch fuel (i + batch) = [] := by
+          cases fuel with
+          | zero => rfl
+          | succ f => unfold insertChunks; rw [if_neg (by omega)]
+        simp [hrest]
+      · have hmin : min (i + batch) len = i + batch := by omega
+        rw [hmin, insertChunks_cover len batch hb fuel (i + batch) (by omega) (by omega)]
+        have e1 : i + batch - i = batch := by omega
+        have e2 : len - i = batch + (len - (i + batch)) := by omega
+        rw [e1, e2, List.range_add, List.map_append, List.map_map]
+        congr 1
+        apply List.map_congr_left
+        intro a _
+        simp only [Function.comp]
+        omega
+    · have : len - i = 0 := by omega
+      simp [hlt, this]
+
+/-- **insert_single_call**: a step loads at most `batch_size` blocks (`step_exact`), so `Task.insert` makes
+    exactly ONE `Insert` call with the whole batch (and `dests[0]`): the batch-level theorem `insert_exact`
+    is about precisely what the task hands to the row builder -/
+theorem insert_single_call (len batch : Nat) (h1 : 1 ≤ len) (h2 : len ≤ batch) :
+    insertChunks len batch len 0 = [(0, len)] := by
+  cases len with
+  | zero => omega
+  | succ k =>
+    unfold insertChunks
+    have hm : max batch 1 = batch := by omega
+    simp only [Nat.zero_lt_succ, if_true, Nat.zero_add, hm]
+    have hmin : min batch (k + 1) = k + 1 := by omega
+    rw [hmin]
+    cases k with
+    | zero => rfl
+    | succ j => unfold insertChunks; rw [if_neg (by omega)]
+
 /-- the World model's view of a block: header data and the projected rows as (unique key, payload) -/
 def toBlk (refs : Refs) (d : Decl) (ty : Ty) (mode : Mode) (base : Ctx) (key pay : List DVal → String)
     (sb : SBlock) : Blk :=
@@ -186,3 +246,5 @@ end Shovel.System
 
 #print axioms Shovel.System.insert_batch_flat
 #print axioms Shovel.System.system_table_exact
+#print axioms Shovel.System.insert_single_call
+#print axioms Shovel.System.insertChunks_cover
